@@ -8,13 +8,10 @@ package rulelist
 //@ import filterlist github.com/AdguardTeam/urlfilter/filterlist
 //@ import refreshable github.com/AdguardTeam/AdGuardDNS/internal/filter/internal/refreshable
 
-//@ immutable Refreshable.*, filter.cache, filter.id, filter.svcID, filter.urlFilterID
+//@ import internal github.com/AdguardTeam/AdGuardDNS/internal/filter/internal
+//@ immutable Refreshable.*, filter.cache, filter.id, filter.svcID, filter.urlFilterID, CacheItem.*
 
-// The result cache forgets everything on Clear (see C12).
-//@ ghost cacheClears map[any]int
-//@ interface ResultCache method Clear
-//@   modifies cacheClears[this]
-//@   ensures cacheClears[this] == old(cacheClears[this]) + 1
+// The result cache forgets everything on Clear (agdcache contract, see C12).
 
 // ---------------------------------------------------------------------------
 // C13: a failed refresh keeps the previous, complete rule set; a successful
@@ -26,9 +23,9 @@ package rulelist
 // rlRefreshOK: the latest rule-list refresh succeeded.
 //@ ghost rlRefreshOK bool
 //@ func (*Refreshable).Refresh
-//@   property C13
+//@   property C13 C12
 //@   requires RL(f)
-//@   modifies f.filter.engine, replaceCalls, replaces, cleanups, sbLen, copyFailed, lastRefreshText, storageText, engineText, cacheClears, rlRefreshOK
+//@   modifies f.filter.engine, replaceCalls, replaces, cleanups, sbLen, copyFailed, lastRefreshText, storageText, engineText, cacheClears, achas, rlRefreshOK
 //@   ghostset rlRefreshOK = err == nil
 //@   ensures rlRefreshOK == (err == nil)
 //@   ensures failed-refresh-keeps-the-previous-rules: err != nil ==> f.filter.engine == old(f.filter.engine) &&
@@ -45,3 +42,45 @@ package rulelist
 //@   modifies nothing
 //@ func (*Refreshable).RulesCount
 //@   modifies nothing
+
+// ---------------------------------------------------------------------------
+// C12: the result cache is invisible and does not survive a refresh.
+//
+// verdict: what the engine answers for a question, in the shape the filter
+// returns it (no match and no network rules: nil).
+//@ pred verdict(e *urlfilter.DNSEngine, host string, qt int, ans bool) =
+//@        (!mrOK(e, host, qt, ans) && len(mrRes(e, host, qt, ans).NetworkRules) == 0) ? nil : mrRes(e, host, qt, ans)
+// cacheOK: every cached item was computed by the CURRENT engine for the
+// question its key stands for.
+//@ pred itemAt(c any, k int) = toptr(acval[c][k], CacheItem)
+//@ pred cacheOK(f *filter) = forall k int :: achas[f.cache][k] ==> allocated(itemAt(f.cache, k)) && (itemAt(f.cache, k).host == ckHost(k) ==>
+//@        itemAt(f.cache, k).res == verdict(f.engine, ckHost(k), ckType(k), ckAns(k)))
+
+//@ func itemFromCache
+//@   property C12
+//@   requires ref(cache) != 0
+//@   modifies cgetCache, cgetKey
+//@   ensures a-hit-needs-the-same-host: ok ==> item != nil && item.host == host && achas[cache][key] && acval[cache][key] == item
+//@   ensures !ok ==> item == nil
+
+//@ func (*filter).DNSResult
+//@   property C12
+//@   held *
+//@   requires f != nil && ref(f.cache) != 0 && f.engine != nil && cacheOK(f) && 0 <= rrType
+//@   modifies cgetCache, cgetKey, hst, ipBytes, achas[f.cache], acval[f.cache]
+//@   atcall Set assume the-empty-cache-type-stores-nothing: emptyCache ==> isEmptyCache(f.cache)
+//@   ensures with-or-without-the-cache-the-engines-verdict: res == verdict(f.engine, host, rrType, isAns)
+//@   ensures cacheOK(f)
+
+// The engine and the cache contents belong together: they change only under
+// the write lock, and whenever the lock is free every cached item was computed
+// by the engine that is installed.
+//@ lock Refreshable self.mu
+//@   protects self.filter.engine, achas, acval
+//@   invariant self.filter != nil ==> self.filter.engine != nil && cacheOK(self.filter)
+
+//@ func (*Refreshable).DNSResult
+//@   property C12
+//@   requires RL(f) && f.filter.engine != nil && 0 <= rrType
+//@   modifies cgetCache, cgetKey, hst, ipBytes, achas, acval
+//@   ensures the-installed-engines-verdict: res == locked(verdict(f.filter.engine, host, rrType, isAns))
